@@ -263,3 +263,57 @@ def torsions_after_edit(which: int, edit: int, primed: bool) -> bool:
         res2 = res
     fresh = _topo(res2, [0, 0, 0])
     return [list(map(int, r)) for r in f(top)] == [list(map(int, r)) for r in f(fresh)]
+
+
+# ------------------------------------------------------------------ the convenience wrappers hand their flags on
+
+_ARG = ("N", "CA", "C", "O", "CB", "CG", "CD", "NE", "CZ", "NH1", "NH2")
+
+
+def wrapper_flags(which: int, periodic: bool, opt: bool) -> bool:
+    """
+    pre: 0 <= which <= 7
+    post: __return__
+    """
+    which = conc(which, 0, 7)
+    t = Topology()
+    ch = t.add_chain()
+    for _ in range(3):
+        r = t.add_residue("ARG", ch)
+        for n in _ARG:
+            t.add_atom(n, _el.carbon, r)
+    traj = Trajectory(np.zeros((1, t.n_atoms, 3), dtype=np.float32), t)
+    seen = []
+    real = _dih.compute_dihedrals
+    _dih.compute_dihedrals = lambda tr, indices, periodic=True, opt=True: seen.append((tr, bool(periodic), bool(opt), len(indices))) or np.zeros((1, len(indices)), dtype=np.float32)
+    try:
+        f = [_dih.compute_phi, _dih.compute_psi, _dih.compute_omega, _dih.compute_chi1, _dih.compute_chi2, _dih.compute_chi3, _dih.compute_chi4, _dih.compute_chi5][which]
+        f(traj, periodic=periodic, opt=opt)
+    finally:
+        _dih.compute_dihedrals = real
+    return len(seen) == 1 and seen[0][0] is traj and seen[0][1] == bool(periodic) and seen[0][2] == bool(opt) and seen[0][3] >= 1
+
+
+def closest_contact_frame(frame: int, periodic: bool, have_cell: bool) -> bool:
+    """
+    pre: 0 <= frame <= 2
+    post: __return__
+    """
+    import mdtraj.geometry.distance as _d
+    frame = conc(frame, 0, 2)
+    xyz = (np.arange(3 * 4 * 3, dtype=np.float32).reshape(3, 4, 3) * 0.37) % 2.9
+    t = Trajectory(xyz.copy(), None)
+    if have_cell:
+        t.unitcell_lengths = np.array([[2.0, 3.0, 4.0], [2.5, 3.5, 4.5], [3.0, 3.25, 5.0]])
+        t.unitcell_angles = np.array([[90.0, 90.0, 90.0], [80.0, 100.0, 70.0], [90.0, 90.0, 120.0]])
+    rec = _Rec()
+    _d._geometry = rec
+    _d.find_closest_contact(t, [0, 1], [2, 3], frame=frame, periodic=periodic)
+    if len(rec.calls) != 1 or rec.calls[0][0] != "_find_closest_contact":
+        return False
+    a = rec.calls[0][1]
+    if not np.array_equal(a[0], xyz[frame]) or list(a[1]) != [0, 1] or list(a[2]) != [2, 3]:
+        return False
+    if periodic and have_cell:
+        return a[3] is not None and np.allclose(a[3], t.unitcell_vectors[frame], atol=1e-6)
+    return a[3] is None
